@@ -1,5 +1,6 @@
 //! Shared monitoring machinery for the gc-arena runtime-verification harness.
 pub mod json;
+pub mod report;
 pub mod rng;
 pub mod token;
 pub mod track;
